@@ -54,7 +54,8 @@ CLAIMS = {
              "they report (C03_fuzzy_entry_ascii / _unicode: needles of 2 to 2519 characters, prefix preference off); companion file C03_Paths: the substring matchers "
              "(C03_substring_ascii_score / _unicode_score), the greedy matcher (C03_greedy_ascii_score / _unicode_score) and hence EVERY path of fuzzy_match - contiguous shortcut, "
              "matrix, greedy fallback - return the scheme's value of the alignment they report (C03_fuzzy_all_paths_ascii / _unicode); fuzzy_match_correct_ascii / _unicode put C01, C02 "
-             "and C03 into one statement about fuzzy_match (matches iff subsequence; then a valid witness whose scheme value is the score). Not theorems: one-character needles and the fuzzy_match_greedy entry dispatch at the score level (their witness theorems are in C02), and the equality of the compressed u16 matrix with the recurrence - both are the correspondence (implementation = model on every case), and the oracle "
+             "and C03 into one statement about fuzzy_match (matches iff subsequence; then a valid witness whose scheme value is the score). One-character needles: C03_fuzzy_one_char_ascii / _unicode (from the one-character optimum of C04). Not theorems: the fuzzy_match_greedy entry dispatch at the score level "
+             "(its inner routine is C03_greedy_*_score, its witness theorem is in C02), and the equality of the compressed u16 matrix with the recurrence - both are the correspondence (implementation = model on every case), and the oracle "
              "evaluates score = scheme on the reported indices for all six algorithms on every case; the u16 saturation for needles > 2520 characters is a KNOWN-FINDING."),
     "C04": dict(
         technique="Lean 4 theorems (early-exit soundness) + brute-force optimum oracle + model-equals-recurrence correspondence",
